@@ -1,4 +1,4 @@
-import ChythonModel.Proofs.C10Rebuild
+import ChythonModel.Proofs.C10Handshake
 /-!
 # C10 helper lemmas: cis/trans block, indexed reads
 -/
